@@ -9,9 +9,9 @@
    [valid_item n it] is the regime of the statement: integers in [-n, n); unit-step slices with
    bounds in {None} u [-n, n] that select >= 1 row; non-empty strictly increasing lists in [0, n).
    Parts may be empty (length 0): no theorem needs "every file has >= 1 sample". *)
-From Coq Require Import ZArith List Lia Bool.
-From PV Require Import Base.PySlice Base.NpSearch C01.Model C01.Spec C01.Proofs1 C01.Proofs2
-  C01.Proofs3 C01.Proofs4 C01.Proofs.
+From Coq Require Import ZArith List Lia Bool QArith Qabs.
+From PV Require Import Base.PySlice Base.NpSearch Base.Tok C01.Model C01.Spec C01.ModelE C01.Proofs1 C01.Proofs2
+  C01.Proofs3 C01.Proofs4 C01.Proofs C01.Proofs5 C01.Proofs6.
 From PV Require C16.Model.
 Import ListNotations.
 Open Scope Z_scope.
@@ -182,3 +182,208 @@ Example C01_ex_bounds : part_bounds [1; 3; 2] = [0; 1; 4; 6] /\
 Proof. vm_compute. split; reflexivity. Qed.
 Example C01_ex_memmap : memmap_rows (7 + 5 * 3 * 4 + 11) 7 4 3 = Some 5.
 Proof. vm_compute. reflexivity. Qed.
+
+(* ======================================================================================== *)
+(* Stage 3.  Vocabulary (ModelE.v): [getitem_e] / [getitem_rows_e] are the same model with the CLASS
+   of the exception that is raised first ([Err EIndex | EValue | EAssert | EZeroDiv]) instead of
+   None; [phy_bound n dflt x] is phylib's reading of a slice bound (`x or dflt`, negative values
+   modulo n, min(., n)); [getitem_t] carries a dtype tag through the per-part reads, np.vstack
+   (promotion) and the 'cols' op; [duration] is n_samples / sample_rate as a rational.             *)
+(* ======================================================================================== *)
+
+(* forgetting which exception is raised gives the model of Model.v back: same results, an
+   exception exactly where that model says None -- for EVERY recording, index and column selector *)
+Theorem C01_exn_erase : forall (A : Type) (parts : list (list (list A))) (it : item) (cols : option colsel),
+  erase (getitem_e parts it cols) = getitem parts it cols.
+Proof. exact (@getitem_erase). Qed.
+Print Assumptions C01_exn_erase.
+
+(* reader[i] for EVERY integer i and every recording: an empty recording raises ZeroDivisionError
+   (i < 0) or IndexError; i >= n raises IndexError (as NumPy); every i < n -- also i < -n, where
+   NumPy raises -- returns row (i mod n) as a 1 x c block *)
+Theorem C01_int_total : forall (A : Type) (parts : list (list (list A))) (i : Z),
+  let n := zlen (concat parts) in
+  (n = 0 -> i < 0 -> getitem_rows_e parts (IInt i) = Err EZeroDiv) /\
+  (n <= i -> getitem_rows_e parts (IInt i) = Err EIndex) /\
+  (i < n -> 0 < n ->
+     exists r, nth_error (concat parts) (Z.to_nat (i mod n)) = Some r /\ getitem_rows_e parts (IInt i) = Ok [r]).
+Proof. exact (@getitem_int_total). Qed.
+Print Assumptions C01_int_total.
+
+(* reader[start:stop:step] for EVERY start, stop, step on a recording of n > 0 rows: a step other than
+   None / 0 / 1 trips the assert; otherwise, with phylib's reading (s, e) of the bounds, rows s .. e-1 when
+   the file holding row s is not after the file holding row e-1, and ValueError (np.vstack of nothing)
+   when it is.  The two range asserts of _get_subitems can never fire. *)
+Theorem C01_slice_total : forall (A : Type) (parts : list (list (list A))) (start stop step : option Z),
+  let n := zlen (concat parts) in
+  let B := part_bounds (map zlen parts) in
+  let s := phy_bound n 0 start in let e := phy_bound n n stop in
+  0 < n ->
+  getitem_rows_e parts (ISlice start stop step) =
+  if negb (or_default step 1 =? 1) then Err EAssert
+  else if find_chunk B s <=? find_chunk B (e - 1) then Ok (slice (concat parts) s e)
+  else Err EValue.
+Proof. exact (@getitem_slice_total). Qed.
+Print Assumptions C01_slice_total.
+
+(* ... spelled out: a non-empty selection (s < e) is always answered -- C01_slice for bounds of ANY size,
+   under phylib's reading of them; an empty one (e <= s) is a block of 0 rows exactly when rows e-1 and s
+   are in the same file (notes/C02.md, "Strengthening pass": the probed table), otherwise ValueError *)
+Theorem C01_slice_cases : forall (A : Type) (parts : list (list (list A))) (start stop step : option Z),
+  let n := zlen (concat parts) in
+  let B := part_bounds (map zlen parts) in
+  let s := phy_bound n 0 start in let e := phy_bound n n stop in
+  0 < n -> or_default step 1 = 1 ->
+  (s < e -> getitem_rows_e parts (ISlice start stop step) = Ok (slice (concat parts) s e)) /\
+  (e <= s -> getitem_rows_e parts (ISlice start stop step) =
+             if find_chunk B s =? find_chunk B (e - 1) then Ok [] else Err EValue).
+Proof. exact (@getitem_slice_cases). Qed.
+Print Assumptions C01_slice_cases.
+
+(* where phylib's reading of the bounds is NumPy's (the statement's range), and where it is not:
+   0 is read as None for start, stop and step alike (so reader[a:0] is reader[a:]) *)
+Theorem C01_slice_reading : forall (A : Type) (parts : list (list (list A))) (n : Z) (start stop step : option Z),
+  (0 < n -> bound_ok n start -> phy_bound n 0 start = np_bound n 0 start) /\
+  (0 < n -> bound_ok n stop -> 0 < np_bound n n stop -> phy_bound n n stop = np_bound n n stop) /\
+  getitem_rows_e parts (ISlice (Some 0) stop step) = getitem_rows_e parts (ISlice None stop step) /\
+  getitem_rows_e parts (ISlice start (Some 0) step) = getitem_rows_e parts (ISlice start None step) /\
+  getitem_rows_e parts (ISlice start stop (Some 0)) = getitem_rows_e parts (ISlice start stop None).
+Proof.
+  intros A parts n start stop step. split; [exact (phy_bound_start n start)|].
+  split; [exact (phy_bound_stop n stop)|]. exact (slice_zero_is_none parts start stop step).
+Qed.
+Print Assumptions C01_slice_reading.
+
+(* the error exits of the list branch: an increasing list with an entry >= n raises IndexError (from
+   _get_subitems, before any read); one with a negative entry ValueError (chunk -1 cannot be unpacked);
+   the empty list ValueError (np.vstack of nothing); two equal neighbours AssertionError *)
+Theorem C01_list_exits : forall (A : Type) (parts : list (list (list A))),
+  (forall l, increasing (-1) l -> Exists (fun x => zlen (concat parts) <= x) l ->
+     getitem_rows_e parts (IList l) = Err EIndex) /\
+  (forall lo l, increasing lo l -> Exists (fun x => x < 0) l ->
+     getitem_rows_e parts (IList l) = Err EValue) /\
+  getitem_rows_e parts (IList []) = Err EValue /\
+  (forall a x b, getitem_rows_e parts (IList (a ++ x :: x :: b)) = Err EAssert).
+Proof.
+  intros A parts. split; [exact (getitem_list_high parts)|]. split; [exact (getitem_list_neg parts)|].
+  split; [exact (getitem_list_empty parts)|exact (getitem_list_repeat parts)].
+Qed.
+Print Assumptions C01_list_exits.
+
+(* on the statement's regime the multi-file reader IS the single-file reader of the concatenation, the
+   class of the exception a bad column selector raises included *)
+Theorem C01_exn_single_file : forall (A : Type) (parts : list (list (list A))) (it : item) (cols : option colsel),
+  valid_item (zlen (concat parts)) it ->
+  getitem_e parts it cols = getitem_e [concat parts] it cols.
+Proof. exact (@getitem_e_single). Qed.
+Print Assumptions C01_exn_single_file.
+
+(* for ANY index expression: every row of whatever reader[item] returns is a row of one of the files *)
+Theorem C01_rows_origin : forall (A : Type) (parts : list (list (list A))) (it : item) (rows : list (list A)),
+  getitem_rows parts it = Some rows -> forall r, In r rows -> In r (concat parts).
+Proof. exact (@getitem_rows_origin). Qed.
+Print Assumptions C01_rows_origin.
+
+(* shape of reader[item(, cols)] on a recording of c channels: (rows NumPy selects, c), resp. the number
+   of selected columns *)
+Theorem C01_shape : forall (A : Type) (parts : list (list (list A))) (c : Z) (it : item) (cols : option colsel)
+    (out : list (list A)),
+  valid_item (zlen (concat parts)) it -> Forall (fun r => zlen r = c) (concat parts) ->
+  getitem parts it cols = Some (RRows out) ->
+  exists w, ncols c cols = Some w /\ zlen out = sel_count (zlen (concat parts)) it /\
+            Forall (fun r => zlen r = w) out.
+Proof. exact (@getitem_shape). Qed.
+Print Assumptions C01_shape.
+
+(* dtype: files all of dtype d, ANY promotion rule with promote d d = d: every block the reader returns
+   (per-part reads, np.vstack, 'cols' op) has dtype d, and its rows are those of the untagged model *)
+Theorem C01_dtype : forall (D A : Type) (promote : D -> D -> D), (forall d, promote d d = d) ->
+  forall (d : D) (parts : list (@tblock D A)) (it : item) (cols : option colsel),
+  Forall (fun p => tb_dt p = d) parts ->
+  getitem_t promote parts it cols = option_map (tag_result d) (getitem (map tb_rows parts) it cols).
+Proof. exact (@getitem_t_same). Qed.
+Print Assumptions C01_dtype.
+
+(* duration = chunk_bounds[-1] / sample_rate, exactly: d * rate = total number of rows, and d is the sum
+   of the durations of the files *)
+Theorem C01_duration : forall (sizes : list Z) (cs : Z) (rate : Q),
+  sizes <> [] -> (forall x, In x sizes -> 0 <= x) -> 1 <= cs -> (0 < rate)%Q ->
+  exists d, duration sizes cs rate = Some d /\ (d * rate == inject_Z (zsum sizes))%Q /\
+            (d == fold_right Qplus 0 (map (fun s => inject_Z s / rate) sizes))%Q.
+Proof. exact duration_spec. Qed.
+Print Assumptions C01_duration.
+
+(* clause 26 of the comparator: the observed binary64 duration (exact value d) is within one rounding
+   (relative 2^-53) of the rational n / rate *)
+Theorem C01_duration_checker_sound : forall (n : Z) (rate dur : tok), duration_spec_b n rate dur = true ->
+  exists r d, tokQ rate = Some r /\ tokQ dur = Some d /\ (0 < r)%Q /\
+              (Qabs (d - inject_Z n / r) <= (inject_Z n / r) * half_ulp)%Q.
+Proof. exact duration_spec_b_sound. Qed.
+Print Assumptions C01_duration_checker_sound.
+
+(* the checkers decide their specifications (completeness as well as soundness) *)
+Theorem C01_checker_iff : forall sizes c it cols obs,
+  getitem_spec_b sizes c it cols obs = true <-> np_getitem (concat (mk_parts c 0 sizes)) it cols = Some obs.
+Proof. exact getitem_spec_b_iff. Qed.
+Print Assumptions C01_checker_iff.
+
+Theorem C01_attrs_checker_iff : forall sizes c s0 s1 ns nc,
+  attrs_spec_b sizes c s0 s1 ns nc = true <-> s0 = zsum sizes /\ s1 = c /\ ns = zsum sizes /\ nc = c.
+Proof. exact attrs_spec_b_iff. Qed.
+Print Assumptions C01_attrs_checker_iff.
+
+(* ---- non-vacuity (the same three files of 1, 3 and 2 samples, 2 channels) ---- *)
+(* integers outside [-n, n): 6 raises IndexError, -7 is row 5; an empty recording *)
+Example C01_ex_int_total : getitem_rows_e ex_parts (IInt 6) = Err EIndex /\
+  getitem_rows_e ex_parts (IInt (-7)) = Ok [[10; 11]] /\ (-7) mod 6 = 5 /\
+  getitem_rows_e (@nil (list (list Z))) (IInt (-1)) = Err EZeroDiv /\ getitem_rows_e [@nil (list Z)] (IInt 0) = Err EIndex.
+Proof. vm_compute. repeat split; reflexivity. Qed.
+(* slices: [2:2] and [3:2] inside the middle file are 0 rows; [1:1], [4:4] (file boundaries), [4:1], [6:],
+   [:-6] raise ValueError; [-7:] is the last row (NumPy: all rows); a step of 2 trips the assert *)
+Example C01_ex_slice_total :
+  getitem_rows_e ex_parts (ISlice (Some 2) (Some 2) None) = Ok [] /\
+  getitem_rows_e ex_parts (ISlice (Some 3) (Some 2) None) = Ok [] /\
+  getitem_rows_e ex_parts (ISlice (Some 1) (Some 1) None) = Err EValue /\
+  getitem_rows_e ex_parts (ISlice (Some 4) (Some 4) None) = Err EValue /\
+  getitem_rows_e ex_parts (ISlice (Some 4) (Some 1) None) = Err EValue /\
+  getitem_rows_e ex_parts (ISlice (Some 6) None None) = Err EValue /\
+  getitem_rows_e ex_parts (ISlice None (Some (-6)) None) = Err EValue /\
+  getitem_rows_e ex_parts (ISlice (Some (-7)) None None) = Ok [[10; 11]] /\
+  getitem_rows_e ex_parts (ISlice None None (Some 2)) = Err EAssert /\
+  phy_bound 6 0 (Some (-7)) = 5 /\ phy_bound 6 6 (Some 0) = 6 /\
+  find_chunk (part_bounds [1; 3; 2]) 2 = 1 /\ find_chunk (part_bounds [1; 3; 2]) 1 = 1 /\ find_chunk (part_bounds [1; 3; 2]) 0 = 0.
+Proof. vm_compute. repeat split; reflexivity. Qed.
+(* lists: [0; 6] IndexError, [-1] ValueError, [1; 1] AssertionError; an unordered list is grouped by file *)
+Example C01_ex_list_exits :
+  getitem_rows_e ex_parts (IList [0; 6]) = Err EIndex /\ getitem_rows_e ex_parts (IList [-1]) = Err EValue /\
+  getitem_rows_e ex_parts (IList [1; 1]) = Err EAssert /\ getitem_rows_e ex_parts (IList []) = Err EValue /\
+  getitem_rows_e ex_parts (IList [4; 1]) = Ok [[2; 3]; [8; 9]].
+Proof. vm_compute. repeat split; reflexivity. Qed.
+(* a column index out of range raises IndexError, a column step 0 ValueError -- as on one file *)
+Example C01_ex_exn_cols :
+  getitem_e ex_parts (IInt 0) (Some (CList [5])) = Err EIndex /\
+  getitem_e [concat ex_parts] (IInt 0) (Some (CList [5])) = Err EIndex /\
+  getitem_e ex_parts (IInt 0) (Some (CSlice None None (Some 0))) = Err EValue.
+Proof. vm_compute. repeat split; reflexivity. Qed.
+Example C01_ex_shape :
+  getitem ex_parts (ISlice (Some 1) (Some 5) None) (Some (CList [1; 0; 1])) =
+    Some (RRows [[3; 2; 3]; [5; 4; 5]; [7; 6; 7]; [9; 8; 9]]) /\
+  ncols 2 (Some (CList [1; 0; 1])) = Some 3 /\ sel_count 6 (ISlice (Some 1) (Some 5) None) = 4 /\
+  Forall (fun r => zlen r = 2) (concat ex_parts).
+Proof. split; [vm_compute; reflexivity|]. split; [vm_compute; reflexivity|]. split; [vm_compute; reflexivity|].
+  repeat constructor. Qed.
+(* dtype tags 1 = int16, 5 = float64 with promotion = max: files all int16 give int16; one float64 file
+   makes a block read across it float64 (why the theorem asks for one dtype) *)
+Example C01_ex_dtype :
+  getitem_t Z.max [mktb 1 [[0; 1]]; mktb 1 [[2; 3]; [4; 5]]] (ISlice None None (Some 1)) (Some (CList [1])) =
+    Some (TRows 1 [[1]; [3]; [5]]) /\
+  getitem_t Z.max [mktb 1 [[0; 1]]; mktb 5 [[2; 3]; [4; 5]]] (ISlice None None (Some 1)) None =
+    Some (TRows 5 [[0; 1]; [2; 3]; [4; 5]]) /\
+  getitem_t Z.max [mktb 1 [[0; 1]]; mktb 5 [[2; 3]; [4; 5]]] (IInt 0) None = Some (TRows 1 [[0; 1]]).
+Proof. vm_compute. repeat split; reflexivity. Qed.
+(* 6 rows at 2.5 Hz: 12/5 s = 2/5 + 6/5 + 4/5; the float 2.4 = 5404319552844595 * 2^-51 passes clause 26 *)
+Example C01_ex_duration : duration [1; 3; 2] 1500 (5 # 2) = Some (inject_Z 6 / (5 # 2))%Q /\
+  (inject_Z 6 / (5 # 2) == 12 # 5)%Q /\
+  duration_spec_b 6 (TNum 5 (-1)) (TNum 5404319552844595 (-51)) = true /\
+  duration_spec_b 6 (TNum 5 (-1)) (TNum 5404319552844599 (-51)) = false.
+Proof. split; [vm_compute; reflexivity|]. split; [reflexivity|]. split; vm_compute; reflexivity. Qed.
